@@ -201,6 +201,57 @@ func H_conc_duplicates() {
 }
 `, dupText)
 	fam.Instances = append(fam.Instances, Instance{Func: "H_conc_duplicates", Stratum: "duplicates", Desc: "conc block with textually identical members", Text: dupText, Expect: []string{"executed"}})
+	for _, before := range []int{0, 5, 8, 12} {
+		name := fmt.Sprintf("H_conc_many_locals_%d", before)
+		text := "rule \"r\" begin\n"
+		for i := 0; i < before; i++ {
+			text += fmt.Sprintf(" l%d = %d\n", i, i+1)
+		}
+		text += " conc {\n  a0 = w(0, v0, false)\n  a1 = w(1, v1, false)\n  a2 = w(2, v2, false)\n  a3 = w(3, v3, false)\n"
+		if before > 0 {
+			text += "  l0 = w(4, v4, false)\n"
+		} else {
+			text += "  a4 = w(4, v4, false)\n"
+		}
+		text += " }\n ev(\"after\")\n"
+		sum := "a0 + a1 + a2 + a3"
+		if before > 0 {
+			sum += " + l0"
+		} else {
+			sum += " + a4"
+		}
+		for i := 1; i < before; i++ {
+			sum += fmt.Sprintf(" + l%d", i)
+		}
+		text += " return " + sum + "\nend\n"
+		extra := 0
+		for i := 1; i < before; i++ {
+			extra += i + 1
+		}
+		fmt.Fprintf(&b, `
+// %d locals before the block, five assignments inside (one of them to an existing local when there is one)
+func %s() {
+	v := symVals("v", 5)
+	dc := newDC(nil)
+	addVals(dc, "v", v)
+	dc.Add("w", w)
+	rb := buildText(dc, %q)
+	eng := engine.NewGengine()
+	err := eng.Execute(rb, true)
+	vnd.Event("ret")
+	vnd.Quiesce()
+	res, _ := eng.GetRulesResultMap()
+	vnd.Reach("executed")
+	vnd.RequireJoined("ret")
+	vnd.NoRaces("map:")
+	vnd.StopIfViolated()
+	vnd.Assert(err == nil, "the block fails iff a member fails")
+	x, ok := res["r"].(int64)
+	vnd.Assert(ok && x == v[0]+v[1]+v[2]+v[3]+v[4]+%d, "the statement after the block observes every assignment")
+}
+`, before, name, text, extra)
+		fam.Instances = append(fam.Instances, Instance{Func: name, Stratum: "many-locals", Desc: fmt.Sprintf("%d locals before a block of five assignments", before), Text: text, Expect: []string{"executed"}})
+	}
 	argText := "rule \"r\" begin\n conc {\n  use(tick(0), missing)\n  obj.Use(tick(1), missing)\n  obj.Inner.Use(tick(2), missing)\n  a = use(tick(3), missing)\n }\n ev(\"after\")\nend\n"
 	overlapText := "rule \"r\" begin\n gate()\n conc {\n  first()\n  second()\n }\n ev(\"after\")\nend\n"
 	fmt.Fprintf(&b, `
